@@ -15,7 +15,7 @@ RULE = ('proof: Properties/C07.v (include-any/exclude-none; order and repetition
 
 PIECES = ['a', 'b*', '*.txt', '?', '[ab]c', '.x', '*', 'a/b', '*/a', '!(a)', '@(a|b)x', 'a\\|b', '\\!a', '\\-a', '[|]', '*(a|b)',
           '!a', '-a', 'x.txt', '**', '.*', '(a)', '(a|b)']
-NAMES = ['(a)', 'a', 'b', 'ab', 'a\n', 'ab\n', 'x.txt\n', 'a.txt', 'x.txt', '.x', '.a', 'a/b', 'c/a', 'a|b', '!a', '-a', 'ac', '|', 'ax', 'bx', 'a/', 'x/y/a']
+NAMES = ['', '(a)', 'a', 'b', 'ab', 'a\n', 'ab\n', 'x.txt\n', 'a.txt', 'x.txt', '.x', '.a', 'a/b', 'c/a', 'a|b', '!a', '-a', 'ac', '|', 'ax', 'bx', 'a/', 'x/y/a']
 
 
 def single(mod, name, pat, flags_single):
@@ -194,8 +194,10 @@ def run(ctx):
                     base = (Gm.globmatch if glob_mode else Fm.fnmatch)(name, written, flags=flagv, **kw)
                     evals += 1
                     alt = {'compile': cm.match(name), 'filter': name in flt,
-                           'permuted+duplicated': (Gm.globmatch if glob_mode else Fm.fnmatch)(name, perm, flags=flagv, **kw),
-                           'translate': any(re.fullmatch(r, name) for r in tr[0]) and not any(re.fullmatch(r, name) for r in tr[1])}
+                           'permuted+duplicated': (Gm.globmatch if glob_mode else Fm.fnmatch)(name, perm, flags=flagv, **kw)}
+                    if name != '':
+                        # (translate speaks about non-empty names: the matcher answers False for the empty name before any regex is tried)
+                        alt['translate'] = any(re.fullmatch(r, name) for r in tr[0]) and not any(re.fullmatch(r, name) for r in tr[1])
                     for k2, v in alt.items():
                         if v != base:
                             ctx.counterexample('%s disagrees with the direct call on %r' % (k2, name),
@@ -207,6 +209,50 @@ def run(ctx):
         if len(samples) < 4:
             samples.append({'written': written, 'exclude': kw.get('exclude'), 'flags': corr.flag_names(flagv)})
     ctx.counted('list call vs single-pattern decomposition', evals, len(nontriv), samples)
+    # SPLIT cuts at top-level `|` only: a `|` that is a member of a bracket expression - however the expression starts
+    # (`]`, `!]`, `^]`, a POSIX class, an escape first) - never splits; an extended group that is never closed is no
+    # group, so the `|` after its `(` do split (except inside a bracket expression of their own).  Patterns are built
+    # with known structure; the reference is the list of the pieces known by construction.
+    nbr = 0
+    nbr_bad = 0
+    heads = ['', ']', '!]', '^]', '!', '^', '[:alpha:]', '\\]', '-', ']-', '[', '![', 'a-c', '[:digit:]x', '\\\\', '!\\\\']
+    tails = ['', 'a', '[:upper:]', '\\]', '-', 'x-z', '\\|']
+    cases = []
+    for hd in heads:
+        for tl in tails:
+            br = '[' + hd + '|' + tl + ']'
+            for pre, post in ((('', ''), ('a', 'b')) if ctx.quick else (('', ''), ('a', 'b'), ('*', ''), ('', '*'))):
+                cases.append(([pre + br + post], 0))
+                cases.append(([pre + br + post, 'x'], 0))
+                cases.append((['x', pre + br + post], 0))
+    # unclosed groups: every `|` outside a bracket expression is top-level
+    for grp in ('@(a', '+(a[b]', '!(a[|]b', '*(x[y', '?([]|]', '@(a\\)'):
+        for rest in ('[b', 'b', '[|]c', 'b]'):
+            if grp.count('[') > grp.count(']') and ']' in rest:
+                continue        # the `]` would close the bracket left open in the group text: another structure
+            cases.append(([grp, rest], Fm.EXTMATCH))
+    names_b = ['|', ']', 'a', 'b', 'x', '[', '-', 'c', 'A', 'a|b', '\\', '5', 'a|', 'a]b', 'a|b]', '@(a', '[b', '+(a[b]', '+(ab', '!(a|b', '!(a[|]b', '*(x[y', '?(]', '?(|', 'b]', '|c', '@(a)', 'x[']
+    for pieces, xf in cases:
+        written = '|'.join(pieces)
+        for plat in (Fm.FORCEUNIX, Fm.FORCEWIN):
+            for dm in (0, Fm.DOTMATCH):
+                fl_ = plat | dm | xf
+                try:
+                    want = [any(Fm.fnmatch(n_, pc, flags=fl_) for pc in pieces) for n_ in names_b]
+                    got = [Fm.fnmatch(n_, written, flags=fl_ | Fm.SPLIT) for n_ in names_b]
+                    tr_ = Fm.translate(written, flags=fl_ | Fm.SPLIT)
+                    flt = [n_ in Fm.filter(names_b, written, flags=fl_ | Fm.SPLIT) for n_ in names_b]
+                except Exception as e_:
+                    ctx.counterexample('fnmatch(.., %r, %s|SPLIT) raised %s' % (written, corr.flag_names(fl_), type(e_).__name__), {'pattern': written, 'flags': corr.flag_names(fl_ | Fm.SPLIT)})
+                    continue
+                nbr += len(names_b)
+                if (got != want or flt != want or len(tr_[0]) != len(pieces)) and nbr_bad < 4:
+                    nbr_bad += 1
+                    k_ = next((i for i in range(len(want)) if got[i] != want[i] or flt[i] != want[i]), 0)
+                    ctx.counterexample('fnmatch(%r, %r, %s|SPLIT) = %r (filter %r; translate gives %d regexes) but its pieces between top-level `|` are %r, of which %s matches' % (
+                        names_b[k_], written, corr.flag_names(fl_), got[k_], flt[k_], len(tr_[0]), pieces, 'one' if want[k_] else 'none'),
+                        {'name': names_b[k_], 'pattern': written, 'flags': corr.flag_names(fl_ | Fm.SPLIT), 'pieces': pieces})
+    ctx.counted('`|` inside bracket expressions and after unclosed groups', nbr, nbr // 3, [{'pattern': '[]|]|x', 'pieces': ['[]|]', 'x']}])
     # order never matters - also for whether the call is accepted at all: a list whose expansions fit the limit in one order
     # fits it in every order (every entry point; limits around the total)
     nperm = 0
